@@ -167,55 +167,67 @@ Fixpoint rd_segments (n : nat) : rd (list (list Z * list Z)) :=
       nm <- take_n l ;; ws <- rd_words 6 ;; rest <- rd_segments n' ;; ret ((nm, ws) :: rest)
   end.
 
-(* P::try_from(buffer) for the packet type with code t *)
+(* P::try_from(buffer) for each packet type *)
+Definition dec_error : rd packet :=
+  c <- get_u8 ;; if (0 <=? c) && (c <=? 3) then ret (PError c) else fail.
+Definition dec_session : rd packet :=
+  f <- get_u8 ;; if negb (Z.land f session_flag_mask =? 0) then fail else
+  r <- remaining ;; n <- take_n r ;; ret (PSession f n).
+Definition dec_request : rd packet := m <- get_u8 ;; ret (PRequest m).
+Definition dec_instance : rd packet :=
+  r <- remaining ;; if r <? 22 then fail else
+  id <- take_n 16 ;; ty <- get_u8 ;;
+  if negb ((1 <=? ty) && (ty <=? 6)) then fail else
+  a <- get_u8 ;; b <- get_u8 ;; c <- get_u8 ;;
+  ml <- get_u16 ;; r1 <- remaining ;; if r1 <? ml + 2 then fail else
+  model <- take_n ml ;;
+  sl <- get_u16 ;; r2 <- remaining ;; if r2 <? sl then fail else
+  serial <- take_n sl ;; ret (PInstance id ty a b c model serial).
+Definition dec_status : rd packet :=
+  r <- remaining ;; if r <? 2 then fail else
+  l <- get_u16 ;; r1 <- remaining ;; if r1 <? l + 2 then fail else
+  nm <- take_n l ;; st <- get_u8 ;;
+  if negb (existsb (Z.eqb st) module_states) then fail else
+  e <- get_u8 ;;
+  if e =? 0 then ret (PStatus nm st None)
+  else if e =? 1 then
+    (r2 <- remaining ;; if r2 <? 1 then fail else
+     k <- get_u8 ;; if (0 <=? k) && (k <=? 4) then ret (PStatus nm st (Some k)) else fail)
+  else fail.
+Definition dec_motion_p : rd packet := m <- dec_motion_payload ;; ret (PMotion m).
+Definition dec_gnss : rd packet :=
+  w <- rd_words 5 ;; sat <- get_u8 ;; st <- get_u8 ;;
+  if existsb (Z.eqb st) gnss_statuses then ret (PGnss w sat st) else fail.
+Definition dec_engine : rd packet :=
+  dd <- get_u8 ;; ae <- get_u8 ;; rpm <- get_u16 ;; st <- get_u8 ;;
+  if engine_state_ok st then ret (PEngine dd ae rpm st) else fail.
+Definition dec_target : rd packet :=
+  w <- rd_words 6 ;; c <- get_u8 ;; if constraint_ok c then ret (PTarget w c) else fail.
+Definition dec_control : rd packet :=
+  k <- get_u8 ;; on <- get_u8 ;;
+  if control_kind_ok k then ret (PControl k (if control_is_flagless k then true else on =? 1)) else fail.
+Definition dec_rotator : rd packet :=
+  s <- get_u8 ;; w <- rd_words 3 ;; r <- get_u8 ;;
+  if (r =? 0) || (r =? 1) then ret (PRotator s w r) else fail.
+Definition dec_actor : rd packet :=
+  r <- remaining ;; if r <? 2 then fail else
+  l <- get_u16 ;; r1 <- remaining ;; if r1 <? l + 1 then fail else
+  nm <- take_n l ;; cnt <- get_u8 ;;
+  segs <- rd_segments (Z.to_nat cnt) ;; ret (PActor nm segs).
+
 Definition dec_payload (t : Z) : rd packet :=
-  if t =? type_error then
-    (c <- get_u8 ;; if (0 <=? c) && (c <=? 3) then ret (PError c) else fail)
-  else if t =? type_session then
-    (f <- get_u8 ;; if negb (Z.land f session_flag_mask =? 0) then fail else
-     r <- remaining ;; n <- take_n r ;; ret (PSession f n))
-  else if t =? type_request then (m <- get_u8 ;; ret (PRequest m))
-  else if t =? type_instance then
-    (r <- remaining ;; if r <? 22 then fail else
-     id <- take_n 16 ;; ty <- get_u8 ;;
-     if negb ((1 <=? ty) && (ty <=? 6)) then fail else
-     a <- get_u8 ;; b <- get_u8 ;; c <- get_u8 ;;
-     ml <- get_u16 ;; r1 <- remaining ;; if r1 <? ml + 2 then fail else
-     model <- take_n ml ;;
-     sl <- get_u16 ;; r2 <- remaining ;; if r2 <? sl then fail else
-     serial <- take_n sl ;; ret (PInstance id ty a b c model serial))
-  else if t =? type_status then
-    (r <- remaining ;; if r <? 2 then fail else
-     l <- get_u16 ;; r1 <- remaining ;; if r1 <? l + 2 then fail else
-     nm <- take_n l ;; st <- get_u8 ;;
-     if negb (existsb (Z.eqb st) module_states) then fail else
-     e <- get_u8 ;;
-     if e =? 0 then ret (PStatus nm st None)
-     else if e =? 1 then
-       (r2 <- remaining ;; if r2 <? 1 then fail else
-        k <- get_u8 ;; if (0 <=? k) && (k <=? 4) then ret (PStatus nm st (Some k)) else fail)
-     else fail)
-  else if t =? type_motion then (m <- dec_motion_payload ;; ret (PMotion m))
-  else if t =? type_gnss then
-    (w <- rd_words 5 ;; sat <- get_u8 ;; st <- get_u8 ;;
-     if existsb (Z.eqb st) gnss_statuses then ret (PGnss w sat st) else fail)
-  else if t =? type_engine then
-    (* indexes buffer[0..4] directly *)
-    (dd <- get_u8 ;; ae <- get_u8 ;; rpm <- get_u16 ;; st <- get_u8 ;;
-     if engine_state_ok st then ret (PEngine dd ae rpm st) else fail)
-  else if t =? type_target then
-    (w <- rd_words 6 ;; c <- get_u8 ;; if constraint_ok c then ret (PTarget w c) else fail)
-  else if t =? type_control then
-    (k <- get_u8 ;; on <- get_u8 ;;
-     if control_kind_ok k then ret (PControl k (if control_is_flagless k then true else on =? 1)) else fail)
-  else if t =? type_rotator then
-    (s <- get_u8 ;; w <- rd_words 3 ;; r <- get_u8 ;;
-     if (r =? 0) || (r =? 1) then ret (PRotator s w r) else fail)
-  else if t =? type_actor then
-    (r <- remaining ;; if r <? 2 then fail else
-     l <- get_u16 ;; r1 <- remaining ;; if r1 <? l + 1 then fail else
-     nm <- take_n l ;; cnt <- get_u8 ;;
-     segs <- rd_segments (Z.to_nat cnt) ;; ret (PActor nm segs))
+  if t =? type_error then dec_error
+  else if t =? type_session then dec_session
+  else if t =? type_request then dec_request
+  else if t =? type_instance then dec_instance
+  else if t =? type_status then dec_status
+  else if t =? type_motion then dec_motion_p
+  else if t =? type_gnss then dec_gnss
+  else if t =? type_engine then dec_engine
+  else if t =? type_target then dec_target
+  else if t =? type_control then dec_control
+  else if t =? type_rotator then dec_rotator
+  else if t =? type_actor then dec_actor
   else fail.
 
 Definition known_type (t : Z) : bool := existsb (Z.eqb t) all_types.
